@@ -11,8 +11,9 @@ coercion -> resolvers:
                    at every offset, and (thorough) every single-character deletion / insertion
   payload faults   variable payloads from C07's value alphabet (wrong kinds included), payload shapes
   selection faults operation name none / right / wrong / empty on anonymous, single and multi-op documents
-  resolver faults  at every executed field of 7 documents: ResolverError with / without extensions, null
-                   (nullable and non-null positions), null list items; pairs of faults (thorough)
+  resolver faults  at every executed field of 7 documents: ResolverError with / without extensions, a
+                   ResolverError subclass, null (nullable and non-null positions), null list items; the same
+                   fault at every field of one name; pairs of faults (thorough)
   return faults    finite float, nan, inf, -inf, huge int, bytes, set at leaf fields of each built-in scalar
 
 each through the executor/runtime configurations graphql_blocking (BlockingExecutor), process_graphql_query
@@ -44,7 +45,7 @@ LEVEL_NOTE = (
 DESIGN_REF = "DESIGN.md section 6, C10"
 RULE = (
     "cases = (seed document, prefix length) for every prefix; (seed, offset, substitute character); deletions and insertions at every offset in thorough; "
-    "(document, variables payload); (document, operation name); (document, executed field, fault) and fault pairs; "
+    "(document, variables payload); (document, operation name); (document, executed field, fault), (document, field name, fault at every occurrence) and fault pairs; "
     "(leaf field, return value); each run under the listed configurations; evaluation = one entry-point call whose "
     "result is checked; non-trivial = distinct (text, variables, operation name, fault plan) whose request got past "
     "the first token (the error is not at offset 0 of an empty/garbage text) or reached validation / execution"
@@ -113,14 +114,22 @@ def _behave(ctx, info, args):
     key = ".".join(str(p) for p in path)
     name = info.field_definition.name
     ftype = FIELD_TYPES.get((info.parent_type.name, name), "?")
-    fault = ctx["plan"].get(key)
+    fault = ctx["plan"].get(key) or ctx["plan"].get("*." + name)
     log = ctx["log"]
+    # (the same message everywhere: errors must not be told apart by their text)
     if fault == "err":
         log.append([path, ftype, "raised", None])
-        raise ResolverError("boom at %s" % key)
+        raise ResolverError("boom")
     if fault == "err-ext":
         log.append([path, ftype, "raised", "ext"])
-        raise ResolverError("boom at %s" % key, extensions=EXT)
+        raise ResolverError("boom", extensions=EXT)
+    if fault == "err-sub":
+        # "Subclass or raise this exception directly"
+        class CustomError(ResolverError):
+            pass
+
+        log.append([path, ftype, "raised", "ext"])
+        raise CustomError("boom", extensions=EXT)
     if fault == "null":
         log.append([path, ftype, "null", None])
         return None
@@ -678,8 +687,12 @@ def cases(tier):
                 yield {"k": "vars", "text": doc, "variables": {name: v}}
     for doc in VALID_FOR_FAULTS:
         for k in range(MAX_PATHS):
-            for fault in ("err", "err-ext", "null", "null-item"):
+            for fault in ("err", "err-ext", "err-sub", "null", "null-item"):
                 yield {"k": "fault", "text": doc, "at": [k], "faults": [fault]}
+        for name in sorted({n for (_, n) in FIELD_TYPES}):
+            if re.search(r"\b%s\b" % name, doc):
+                for fault in ("err", "err-sub", "null", "null-item"):
+                    yield {"k": "fault-all", "text": doc, "name": name, "fault": fault}
     for leaf, doc in LEAVES:
         for r in sorted(RETURNS):
             yield {"k": "ret", "text": doc, "leaf": leaf, "ret": r}
@@ -739,10 +752,13 @@ def _classes(text, variables, opname, plan, configs, st, as_document=False):
             st.outcome((stage, kind, tuple(sorted(p for p, _ in probs)), len(log) > 0))
     out = []
     base_stage = stage.split(":")[0]
+    bare_cr = re.search(r"\r(?!\n)", text) is not None
     for p in sorted(per):
         cfgs = per[p]
+        # locations are computed by counting LF only: texts with a bare CR are their own class
+        name = p + "+bare-cr" if (p.startswith("location-") and bare_cr) else p
         suffix = "" if len(cfgs) == len(configs) else "@" + "+".join(cfgs)
-        out.append(("%s/%s%s" % (stage, p, suffix), details[p]))
+        out.append(("%s/%s%s" % (stage, name, suffix), details[p]))
     if st is not None:
         st.n("stage:" + base_stage)
     return stage, out
@@ -768,6 +784,8 @@ def evaluate(case, st=None):
         plan = {paths[i]: f for i, f in zip(case["at"], case["faults"])}
         if len(case["at"]) > 1:
             configs = ("blocking", "asyncio-coroutines", "threadpool")
+    elif k == "fault-all":
+        plan = {"*." + case["name"]: case["fault"]}
     elif k == "ret":
         plan = {case["leaf"]: ["ret", case["ret"]]}
     elif k == "document":
